@@ -35,6 +35,9 @@ def profile():
             'QXmppRosterIq': 'QXmppRosterIq', 'QXmppIq': 'QXmppIq', 'QXmppIq::Type': 'int',
             'QXmppRosterIq::Item': 'qitem', 'QList<QXmppRosterIq::Item>': 'qitemlist',
             'QXmppRosterIq::Item::SubscriptionType': 'int',
+            'QSet<QString>': 'qstrset',
+            'QMap<QString,QXmppRosterIq::Item>::const_iterator': 'RosterIt', 'QMap<QString,QXmppRosterIq::Item>::iterator': 'RosterIt',
+            'QMap<QString,QXmppRosterIq::Item>::ConstIterator': 'RosterIt', 'QMap<QString,QXmppRosterIq::Item>::Iterator': 'RosterIt',
             'QXmppPresence': 'qpres', 'QXmppPresence::Type': 'int',
             'QXmppClient': 'QXmppClient', 'QXmppClient::StreamManagementState': 'int',
             'std::variant<QXmppRosterIq,QXmppError>': 'RosterResult',
@@ -43,7 +46,7 @@ def profile():
             'QXmppTask<QXmppRosterManager::RosterResult>': 'qtask',
             'QXmppTask<std::variant<QXmppRosterIq,QXmppError>>': 'qtask',
         },
-        class_types={'QXmppRosterManager', 'QXmppRosterManagerPrivate', 'RosterMap', 'PresMap', 'ResMap', 'QXmppRosterIq', 'QXmppIq',
+        class_types={'QXmppRosterManager', 'QXmppRosterManagerPrivate', 'RosterMap', 'RosterIt', 'PresMap', 'ResMap', 'QXmppRosterIq', 'QXmppIq',
                      'QXmppClient', 'RosterResult'},
         calls={
             # QXmppUtils::jidToBareJid / jidToResource: uninterpreted functions of the JID with NO axiom beyond f("") == ""
@@ -71,12 +74,22 @@ def profile():
             'QXmppRosterIq::from/0': ('fn', 'QXmppRosterIq_from'),
             'qitem::bareJid/0': ('fn', 'qitem_bareJid'),
             'qitem::subscriptionType/0': ('fn', 'qitem_subscriptionType'),
+            'qitem::name/0': ('fn', 'qitem_name'), 'qitem::subscriptionStatus/0': ('fn', 'qitem_subscriptionStatus'),
+            'qitem::groups/0': ('fn', 'qitem_groups'), 'qitem::isApproved/0': ('fn', 'qitem_isApproved'),
+            'qitem::isMixChannel/0': ('fn', 'qitem_isMixChannel'), 'qitem::mixParticipantId/0': ('fn', 'qitem_mixParticipantId'),
+            'op==:qstrset:qstrset': ('expr', '{0} == {1}'), 'op!=:qstrset:qstrset': ('expr', '{0} != {1}'),
             'rangefor:qitemlist': cxx2c.rangefor_indexed('qitemlist_size({r})', 'qitemlist_at({r}, {i})'),
             # containers (witness-key view, model.h)
             'RosterMap::remove/1': ('fn', 'RosterMap_remove'),
             'RosterMap::contains/1': ('fn', 'RosterMap_contains'),
             'RosterMap::insert/2': ('fn', 'RosterMap_insert'),
             'RosterMap::clear/0': ('fn', 'RosterMap_clear'),
+            'RosterMap::value/1': ('fn', 'RosterMap_value'),
+            'RosterMap::find/1': ('fnret', 'RosterMap_find', 'RosterIt'), 'RosterMap::constFind/1': ('fnret', 'RosterMap_find', 'RosterIt'),
+            'RosterMap::end/0': ('fnret', 'RosterMap_end', 'RosterIt'), 'RosterMap::constEnd/0': ('fnret', 'RosterMap_end', 'RosterIt'),
+            'RosterMap::cend/0': ('fnret', 'RosterMap_end', 'RosterIt'),
+            'op==:RosterIt:RosterIt': ('fn', 'RosterIt_eq'), 'op!=:RosterIt:RosterIt': ('fn', 'RosterIt_ne'),
+            'op*:RosterIt': ('fn', 'RosterIt_value'), 'RosterIt::value/0': ('fn', 'RosterIt_value'), 'RosterIt::key/0': ('fn', 'RosterIt_key'),
             'PresMap::clear/0': ('fn', 'PresMap_clear'),
             'op[]:PresMap:qstr': ('expr', '*PresMap_index({0}, {1})'),
             'op[]:ResMap:qstr': ('expr', '*ResMap_index({0}, {1})'),
@@ -234,7 +247,8 @@ ASSUMED = [
     'A-QLIST QList<Item>: size and elements are functions of the list value; LIST_LAST is the last index whose item has the witness JID (its defining facts are assumed where the list is read)',
     'QXmppRosterIq::parse (with QXmppStanza::parse / QXmppIq::parse): id() == attribute("id"); type() in {Error,Get,Set,Result} and items() are functions of the parsed element; the parser is not verified here',
     'QXmppRosterIq::isRosterIq is a pure predicate of the element',
-    'QXmppRosterIq::Item::bareJid / subscriptionType, QXmppPresence::from / type are pure getters',
+    'QXmppRosterIq::Item const getters (bareJid, subscriptionType, name, subscriptionStatus, groups, isApproved, isMixChannel, mixParticipantId) and QXmppPresence::from / type are pure getters: uninterpreted functions of the value; items that agree on getters are NOT assumed to be the same item',
+    'A-QMAP lookups (units/C12/model.h): value(k), find / constFind / end / constEnd yield, for the witness key, end or the stored item; for any other key an unconstrained answer; iterators are read-only and never advanced; dereferencing end() is a safety obligation',
     'QXmppIq(Type) generates some fresh id; setId overwrites it; client()->sendPacket transmits the stanza object unchanged (event log)',
     'client()->configuration().jidBare(), streamManagementState(), isAuthenticated() are pure getters',
     'signal emission = synchronous call with no effect on the roster manager other than the event log (re-entrant slots are not modelled)',
@@ -247,6 +261,7 @@ NOT_COVERED = [
     'QXmppUtils::jidToBareJid / jidToResource on concrete strings (DESIGN planned a bounded check; here they are uninterpreted)',
     'that the connected / disconnected / presenceReceived signals of the client are wired to these slots and fire in session order (constructor connect() calls; event loop)',
     'the C08 aspect (an authorised roster get is consumed without an answer) is left to C08',
+    'item identity is id equality: a variant that keeps the cached item because it compared EVERY member equal to the pushed one would be reported although it is observationally correct (QXmppRosterIq::Item has no operator==; no extensionality axiom is assumed)',
 ]
 
 
